@@ -65,7 +65,16 @@ def v9_msg(sets, seq=1):
     return struct.pack(">HHIIII", 9, 1, 1000, int(time.time()), seq, 7) + body
 
 
-def tpl_set(proto, tid, fields):
+def tpl_set(proto, tid, fields, nscope=0):
+    if nscope:
+        # options template: the first nscope fields are the scope
+        specs = b"".join(struct.pack(">HH", i, l) for i, l in fields)
+        if proto == "ipfix":
+            rec = struct.pack(">HHH", tid, len(fields), nscope) + specs
+            return struct.pack(">HH", 3, 4 + len(rec)) + rec
+        rec = struct.pack(">HHH", tid, 4 * nscope, 4 * (len(fields) - nscope)) + specs
+        rec += bytes(-(4 + len(rec)) % 4)
+        return struct.pack(">HH", 1, 4 + len(rec)) + rec
     rec = struct.pack(">HH", tid, len(fields)) + b"".join(struct.pack(">HH", i, l) for i, l in fields)
     return struct.pack(">HH", 2 if proto == "ipfix" else 0, 4 + len(rec)) + rec
 
@@ -166,16 +175,18 @@ def cycle(n, seed, binary, pattern=None):
             tid = next_tid.get((proto, ipl, late_phase), base)
             next_tid[(proto, ipl, late_phase)] = tid + 1
             fields = tpl_fields(rng)
-            msg = (ipfix_msg if proto == "ipfix" else v9_msg)([tpl_set(proto, tid, fields)], seq)
+            # one in three is an options template (scope fields first)
+            nscope = rng.randint(1, len(fields) - 1) if rng.random() < 0.34 else 0
+            msg = (ipfix_msg if proto == "ipfix" else v9_msg)([tpl_set(proto, tid, fields, nscope)], seq)
             seq += 1
             s.sendto(msg, ("127.0.0.1", vf.ports[0] if proto == "ipfix" else vf.ports[3]))
             # a later announcement under the same key replaces the earlier one
             bucket[:] = [m for m in bucket if not (m[0] == proto and m[1] == ipl and m[2] == tid)]
-            bucket.append((proto, ipl, tid, fields))
+            bucket.append((proto, ipl, tid, fields, nscope))
 
         def data(m):
             nonlocal seq
-            proto, ipl, tid, fields = m
+            proto, ipl, tid, fields, nscope = m
             s = next(x for x in exps if x.getsockname()[0].endswith(".%d" % ipl))
             msg = (ipfix_msg if proto == "ipfix" else v9_msg)([data_set(tid, fields, rng)], seq)
             seq += 1
@@ -277,8 +288,8 @@ def cycle(n, seed, binary, pattern=None):
                 ent = (doc["Cache"][k % 32].get("Templates") or {}).get(str(k))
                 if ent is None:
                     return "exit=0 tpl-missing", "fail:lost template %s exporter 127.0.0.%d id %d announced >=300ms before the signal is not in %s" % (proto, m[1], m[2], fn), sample
-                got = [(f["ElementID"], f["Length"]) for f in (ent["Template"].get("FieldSpecifiers") or [])]
-                if got != m[3]:
+                got = [(f["ElementID"], f["Length"]) for f in (ent["Template"].get("ScopeFieldSpecifiers") or []) + (ent["Template"].get("FieldSpecifiers") or [])]
+                if got != m[3] or len(ent["Template"].get("ScopeFieldSpecifiers") or []) != m[4]:
                     return "exit=0 tpl-differs", "fail:lost template %s 127.0.0.%d/%d stored as %s, announced as %s" % (proto, m[1], m[2], got, m[3]), sample
         # restart on the same cache files: data only, must be decoded at once
         if not vf.start():
